@@ -38,6 +38,7 @@ def run(ctx):
     ctx.require('C02 decided cells', tot, 100)
     # R10: every normal float, per rounding cell (sign x exponent x rounding situation; other significand bits symbolic)
     import rules_rounding
+    ctx.trusted += [t for t in rules_rounding.TRUSTED if t not in ctx.trusted]
     ctx.rules.append('R10 rounding cells: symbolic bit-vector result == correctly rounded encoding, per (sign, exponent, rounding case)')
     thorough = ctx.tier == 'thorough'
     cells = proved = 0
